@@ -437,6 +437,7 @@ func runCheck(o checkOpts) int {
 				}
 			}
 			if waived {
+				allOK = false // stated but not discharged: the function is not counted as verified
 				continue
 			}
 			// known findings
